@@ -60,8 +60,24 @@ func init() {
 			"wal.Save precedes installing a received snapshot, which precedes processFn on the committed entries")
 		start := false
 		if fd := funcDecl(g, "RaftGroup", "Start"); fd != nil {
-			start = norm(fd.Body) == "{snap,err:=this.wal.Snapshot()iferr!=nil{returnerr}if!etcdRaft.IsEmptySnap(snap){iferr:=this.processSnapshotFn(snap.Data);err!=nil{returnerr}}gothis.run()returnnil}"
+			// the stored snapshot is installed first; then the loop is started (and nothing else happens)
+			b := norm(fd.Body)
+			pre := "{snap,err:=this.wal.Snapshot()iferr!=nil{returnerr}if!etcdRaft.IsEmptySnap(snap){iferr:=this.processSnapshotFn(snap.Data);err!=nil{returnerr}}"
+			start = b == pre+"gothis.run()returnnil}" ||
+				b == pre+"this.loopDone=make(chanstruct{})gofunc(){deferclose(this.loopDone)this.run()}()returnnil}"
 		}
+		stopWaits := false
+		if fd := funcDecl(g, "RaftGroup", "Stop"); fd != nil {
+			b := norm(fd.Body)
+			i1, i2 := strings.Index(b, "this.ctxCancel()"), strings.Index(b, "ifthis.loopDone!=nil{<-this.loopDone}")
+			stopWaits = strings.HasPrefix(b, "{this.raft.Stop()") && i1 > 0 && i2 > i1
+		}
+		if pf := parseFile("storage/partition.go"); pf != nil {
+			if fd := funcDecl(pf, "partition", "unloadRaft"); fd == nil || !strings.Contains(norm(fd.Body), "this.raft.Stop()this.wal.DeleteGroup()") {
+				stopWaits = false
+			}
+		}
+		o.def("raftStopWaitsForLoop", "Bool", lbool(stopWaits), "RaftGroup.Stop returns only after the group's loop has ended, and unloadRaft deletes the group's log after Stop: nothing writes to a log that is being deleted")
 		o.def("raftStartInstallsSnapshot", "Bool", lbool(start), "Start installs the stored snapshot into the consumer before the loop runs")
 		snapAt := false
 		if fd := funcDecl(g, "RaftGroup", "run"); fd != nil {
